@@ -72,12 +72,85 @@ def seq_part(sc, v, tier):
             break
 
 
+# concurrent level: thread programs (one source: the TLA+ constant is generated from this table)
+PROGS = {
+    # two pushes that make a ring of capacity 2 grow, against a PopN and a reader of Len
+    "grow_vs_popn": ({"a": [("Push", 1), ("Push", 2)], "b": [("PopN", 2)], "c": [("Len", 0), ("Len", 0)]}, [2, 1]),
+    # pops racing pushes across the growth point
+    "push3_vs_pops": ({"a": [("Push", 1), ("Push", 2), ("Push", 3)], "b": [("Pop", 0), ("PopN", 2)]}, [2, 4]),
+    "three_threads": ({"a": [("Push", 1), ("Push", 2)], "b": [("Push", 3), ("Pop", 0)], "c": [("PopN", 3), ("Len", 0)]}, [1, 2]),
+}
+CONC = {"quick": ["grow_vs_popn", "push3_vs_pops"], "thorough": ["grow_vs_popn", "push3_vs_pops", "three_threads"]}
+
+
+def tla_progs(threads):
+    def call(c):
+        return '[op |-> "%s", v |-> %d]' % c
+    return "[" + ", ".join("%s |-> <<%s>>" % (t, ", ".join(call(c) for c in cs)) for t, cs in sorted(threads.items())) + "]"
+
+
+def build_conc(sc):
+    shim, rep = overlay.shim_file(sc, "ringbuffer/ringbuffer.go", ["sync/atomic", "sync"], tag="rc_")
+    ov = overlay.write_overlay(sc, "ov_ringconc.json", {"ringbuffer/ringbuffer.go": shim})
+    return vlib.go_build(sc, "./cmd/ringconc", "ringconc", overlay=ov)
+
+
 def conc_part(sc, v, tier):
-    pass
+    binp = build_conc(sc)
+    cov = v.coverage
+    cov.update({"concurrent": [], "gate_steps": 0})
+    v.assumptions += ["concurrent part: 2-3 threads with 1-3 calls each, every interleaving of their mutex / atomic operations (sequentially consistent); "
+                      "gate shims generated from the working tree's ringbuffer.go"]
+    d = vlib.stage_specs(sc)
+    for name in CONC[tier]:
+        threads, caps = PROGS[name]
+        open(os.path.join(d, "MCRingConcGen.tla"), "w").write(
+            "---- MODULE MCRingConcGen ----\nEXTENDS RingConc\nTheProgs == %s\n====\n" % tla_progs(threads))
+        cfg = "CONSTANTS Progs <- TheProgs\nSPECIFICATION Spec\nINVARIANTS TypeOK C14_LenIsQueue C14_ExactlyOnce\nPROPERTIES C14_Done\n"
+        r, gjson, nn, ne = graphs.dump_graph(sc, "MCRingConcGen.tla", cfg, "rc_" + name, workers=4)
+        v.add_tlc(r, "conc " + name)
+        if r.violated:
+            raise vlib.Broken("RingConc.tla violates %s on %s: the model is wrong" % (r.violated, name))
+        hcfg0 = {"threads": {t: [{"op": o, "v": x} for o, x in cs] for t, cs in threads.items()}}
+        for cap in caps:
+            hcfg = dict(hcfg0, cap=cap)
+            p = vlib.run([binp, "-graph", gjson, "-config", json.dumps(hcfg), "-seed", str(vlib.seed()),
+                          "-explore-budget", "60s" if tier == "quick" else "300s"], timeout=900)
+            rep = json.loads(p.stdout)
+            if rep.get("error"):
+                raise vlib.Broken("ringconc %s cap=%d: %s" % (name, cap, rep["error"]))
+            cov["edges_total"] += rep["edges_total"]
+            cov["edges_covered"] += rep["edges_covered"]
+            cov["gate_steps"] += rep["steps"]
+            cov["traces_validated_against_impl"] += rep["runs"]
+            cov["concurrent"].append({"program": name, "cap0": cap, "nodes": rep["nodes"], "edges": rep["edges_total"], "edges_covered": rep["edges_covered"],
+                                      "runs": rep["runs"], "model_outcomes": rep["model_outcomes"], "divergences": len(rep.get("divergences") or []),
+                                      "explored_schedules": rep["explored_schedules"]})
+            if rep.get("divergences"):
+                cov["nonconformant_runs"] += len(rep["divergences"])
+                cov["exhaustive"] = False
+                dv = rep["divergences"][0]
+                cov.setdefault("nonconformance", []).append({"program": name, "cap0": cap, "after": dv["path"][-6:], "want": dv["want"], "got": dv["got"], "err": dv.get("err", "")})
+            for s in (rep.get("samples") or [])[:1]:
+                v.sample({"program": name, "cap0": cap, "schedule": s})
+            for viol in (rep.get("violations") or [])[:1]:
+                rf = {"kind": "conc", "config": hcfg, "schedule": viol["schedule"], "allowed": rep["allowed"], "what": viol["what"]}
+                tmp = sc.path("rf.json")
+                json.dump(rf, open(tmp, "w"))
+                pr = vlib.run([binp, "-replay", tmp], ok_codes=(0, 1))
+                if pr.returncode != 1:
+                    raise vlib.Broken("concurrent ring violation did not reproduce: " + viol["what"])
+                v.violation(rf, "%s [program %s, initial capacity %d, schedule of %d gate steps]" % (viol["what"], name, cap, len(viol["schedule"])))
+        os.remove(gjson)
+        if v.violations:
+            break
 
 
 def conc_replay(sc, replay):
-    raise vlib.Broken("no concurrent replay yet")
+    binp = build_conc(sc)
+    pr = vlib.run([binp, "-replay", replay], ok_codes=(0, 1))
+    print(pr.stdout.strip())
+    return pr.returncode
 
 
 CHECKS = {"C14": run}
